@@ -539,6 +539,7 @@ func runC06(c *core.Ctx) {
 	c06NaturalLanguage(c)
 	c06SubSecond(c, [][]string{{"print"}, {"csv", "log"}, {"reg"}, {"report", "quantity"}})
 	c06HashTwins(c)
+	c06SummaryOnClockChangeDays(c)
 	// the period of a request is the one this request names: requests served one after the other by one
 	// application value (the job server), each compared with a freshly built application
 	if pool := newPool(c, c.Procs); pool != nil {
@@ -903,5 +904,57 @@ func c06HashTwins(c *core.Ctx) {
 			}
 		}
 		c.Count("hash_twin_pairs_"+strings.ReplaceAll(h.name, "-", "_"), min(found, 3))
+	}
+}
+
+// c06SummaryOnClockChangeDays: summary DATE where DATE and the headings carry the offset of the process zone on a
+// day that is 23 or 25 hours long there: the day summarised is that civil day - not the first hour of the next,
+// and all of its last hour.
+func c06SummaryOnClockChangeDays(c *core.Ctx) {
+	dir := filepath.Join(c.Work, "clock-change-days")
+	type cs struct {
+		tz, layout string
+		heads      []string // headings of the log, in file order
+		date       string   // argument of summary
+		in         []int    // indices of the headings that belong to that day
+	}
+	cases := []cs{
+		{"Europe/Berlin", "2006/01/02 -0700", []string{"2021/03/27 +0100", "2021/03/28 +0100", "2021/03/29 +0200"}, "2021/03/28 +0100", []int{1}},
+		{"Europe/Berlin", "2006/01/02 15:04 -0700", []string{"2021/03/27 23:30 +0100", "2021/03/28 00:10 +0100", "2021/03/28 23:50 +0200", "2021/03/29 00:30 +0200"}, "2021/03/28 00:00 +0100", []int{1, 2}},
+		{"Europe/Berlin", "2006/01/02 15:04 -0700", []string{"2021/10/30 23:30 +0200", "2021/10/31 00:30 +0200", "2021/10/31 23:30 +0100", "2021/11/01 00:30 +0100"}, "2021/10/31 00:00 +0200", []int{1, 2}},
+		{"America/New_York", "2006/01/02 15:04 -0700", []string{"2021/03/14 00:30 -0500", "2021/03/14 23:30 -0400", "2021/03/15 00:30 -0400"}, "2021/03/14 00:00 -0500", []int{0, 1}},
+		{"America/New_York", "2006/01/02 15:04 -0700", []string{"2021/11/07 00:30 -0400", "2021/11/07 23:30 -0500", "2021/11/08 00:30 -0500"}, "2021/11/07 00:00 -0400", []int{0, 1}},
+		{"Australia/Lord_Howe", "2006/01/02 15:04 -0700", []string{"2021/10/03 00:10 +1030", "2021/10/03 23:50 +1100", "2021/10/04 00:10 +1100"}, "2021/10/03 00:00 +1030", []int{0, 1}},
+	}
+	for ci, k := range cases {
+		if _, err := os.Stat(filepath.Join("/usr/share/zoneinfo", k.tz)); err != nil {
+			continue
+		}
+		full, sel := "", ""
+		isIn := map[int]bool{}
+		for _, x := range k.in {
+			isIn[x] = true
+		}
+		for hi, h := range k.heads {
+			b := fmt.Sprintf("%s:\n  food%d: %d\n", h, hi, hi+1)
+			full += b
+			if isIn[hi] {
+				sel += b
+			}
+		}
+		files := map[string]string{"log.yaml": full, "logr.yaml": sel}
+		run.WriteFiles(dir, files)
+		env := map[string]string{"TZ": k.tz}
+		pre := []string{"--no-color", "--no-database", "--date-format", k.layout}
+		ref := run.Exec(c.HR, append(append(append([]string{}, pre...), "-l", "logr.yaml"), "summary", k.date), run.ExecOpts{Dir: dir, Env: env})
+		args := append(append(append([]string{}, pre...), "-l", "log.yaml"), "summary", k.date)
+		res := run.Exec(c.HR, args, run.ExecOpts{Dir: dir, Env: env})
+		c.Eval(2)
+		c.Count("summaries_of_days_of_23_or_25_hours", 1)
+		c.Nontrivial("clock-change", fmt.Sprint(ci))
+		if ref.Exit != 0 || res.Exit != 0 || res.Out != ref.Out {
+			c.Violation("summary|day-window-on-a-clock-change-day", fmt.Sprintf("TZ=%s summary %q differs from the summary of the log reduced to the %d records of that civil day (headings %v)", k.tz, k.date, len(k.in), k.heads),
+				caseDoc{Files: files, Args: args, Env: env, Expected: resDoc(ref), Observed: resDoc(res)})
+		}
 	}
 }
